@@ -6,6 +6,7 @@ import (
 	"go/constant"
 	"go/token"
 	"go/types"
+	"golang.org/x/tools/go/ssa"
 	"strings"
 )
 
@@ -302,7 +303,22 @@ func ruleSpecRelational(c *Ctx, r *R) {
 				target = as.Rhs[0]
 			}
 			if target == nil {
-				r.undecided(op+":outcome", site, "cannot find the expression that maps the comparison outcome to the result of the arm")
+				// no single expression (a switch over the outcome, early returns, ...): evaluate the whole function on the
+				// finite domain instead - comparator fixed, calculateLessThan replaced by each of its three results
+				got, why := relationalOutcomesByEvaluation(c, fd, ltFn, sel, enum)
+				if got == nil {
+					r.undecided(op+":outcome", site, "cannot find the expression that maps the comparison outcome to the result of the arm, and cannot evaluate the function: "+why)
+					continue
+				}
+				wantMap := map[string]string{"lessThanTrue": fmt.Sprint(w.onTrue), "lessThanFalse": fmt.Sprint(w.onFalse), "lessThanUndefined": "false"}
+				for _, name := range []string{"lessThanTrue", "lessThanFalse", "lessThanUndefined"} {
+					key := op + ":outcome:" + name
+					if got[name] == wantMap[name] {
+						r.ok(key, site, "-> "+got[name]+" (by evaluation of the function)")
+					} else {
+						r.bad(key, site, fmt.Sprintf("%s: in the %s arm the comparison outcome %s yields %s, the clause prescribes %s (lessThanUndefined is the NaN / undefined case and must give false for all four operators)", w.clause, op, name, got[name], wantMap[name]))
+					}
+				}
 				continue
 			}
 			got := map[string]string{}
@@ -372,7 +388,7 @@ func ruleSpecRelational(c *Ctx, r *R) {
 				return nil
 			}
 			ast.Inspect(body, func(m ast.Node) bool {
-				if ce, ok := m.(*ast.CallExpr); ok && len(ce.Args) == 1 {
+				if ce, ok := m.(*ast.CallExpr); ok && len(ce.Args) >= 1 && len(ce.Args) <= 2 {
 					if aid, ok := unparen(ce.Args[0]).(*ast.Ident); ok {
 						for i := 0; i < 2; i++ {
 							if linfo.Uses[aid] == types.Object(lsig.Params().At(i)) {
@@ -398,4 +414,42 @@ func ruleSpecRelational(c *Ctx, r *R) {
 	if !found {
 		r.bad("lessThan:flag", c.Pos(ltDecl.Pos()), "calculateLessThan does not branch on its LeftFirst parameter: the order of the two ToPrimitive conversions no longer depends on it")
 	}
+}
+
+// relationalOutcomesByEvaluation runs calculateComparison in the abstract interpreter with the comparator fixed to the
+// token constant sel names, two number operands, and calculateLessThan replaced by a stub returning each of its three
+// results; returns outcome name -> "true"/"false".
+func relationalOutcomesByEvaluation(c *Ctx, fd *ast.FuncDecl, ltFn *types.Func, sel *ast.SelectorExpr, enum map[string]constant.Value) (map[string]string, string) {
+	w := defineWorldFor(c)
+	info := c.InfoFor(fd)
+	fobj, _ := info.Defs[fd.Name].(*types.Func)
+	fn := c.SSAFunc(fobj)
+	k, _ := info.Uses[sel.Sel].(*types.Const)
+	if w == nil || fn == nil || k == nil {
+		return nil, "anchors"
+	}
+	tok, _ := constant.Int64Val(k.Val())
+	out := map[string]string{}
+	for name, val := range enum {
+		n, _ := constant.Int64Val(val)
+		hooks := map[string]absHook{
+			ssaFuncName(c.SSAFunc(ltFn)): func(in *absInterp, call *ssa.CallCommon, args []aval) (aval, bool) {
+				return aInt(n), true
+			},
+		}
+		in := newAbsInterp(hooks)
+		ret, pan, fail := absRun(in, fn, []aval{aAtom{"rt"}, aInt(tok), w.m.mkValue(in, "n:1"), w.m.mkValue(in, "n:2")})
+		if fail != "" {
+			return nil, fail
+		}
+		if pan != nil {
+			return nil, "the function panics"
+		}
+		b, ok := ret.(aBool)
+		if !ok {
+			return nil, fmt.Sprintf("result %T", ret)
+		}
+		out[name] = fmt.Sprint(bool(b))
+	}
+	return out, ""
 }
